@@ -92,4 +92,6 @@ View == <<m, stage, ctx>>
 TCover == (stage = "ctx" /\ stage' = "after" /\ hist'.first) => PrintT(<<"TR", ToJson(hist'.c)>>)
 
 ExitDocumented == stage = "done" => Exit(m) \in DocumentedExit
+\* the verdict-bearing set of exit statuses, printed once for the harness
+ASSUME PrintT(<<"OUT", ToJson([documented |-> DocumentedExit])>>)
 =============================================================================
